@@ -47,46 +47,122 @@ def r14_1(ctx):
                f"{t['callee'].rsplit('::', 1)[-1]} (jumps over bytes without validating them) is called from {short(owner.id)}, which the validating API can reach")
 
 
+def _success_exits(fn):
+    """blocks that give the function's success value: Ok(..) built here, or a callee's Result handed on as it is"""
+    return {b for b, k, x in return_kinds(fn) if k in ("Ok", "other") or (k == "call" and not callee_is(x, "from_residual"))}
+
+
+def _flows_to_return(fn, l):
+    from ..analysis import forward_derived
+    der = {l}
+    for _ in range(4):
+        der |= forward_derived(fn, der)
+        for b, t in fn.calls():
+            if callee_is(t, "map", "map_err", "and_then", "and", "or_else") and t["args"] and op_local(t["args"][0]) in der:
+                der.add(t["dest"][0])
+    return 0 in der
+
+
+def _leaves_through(fn, l, call=None):
+    """leaves of the backward slice of local l in fn; a leaf that is a parameter of fn is replaced by the leaves of the
+    corresponding argument at the call site `call` = (caller, term) (the helper is read in the context of its caller)"""
+    sl, leaves = backward_slice(fn, [l]) if l is not None else (set(), [])
+    out = []
+    for lf in leaves:
+        pi = lf[1] if lf[0] == "param" else (fn.src(lf[1][0])[1] if lf[0] == "place" and fn.src(lf[1][0])[0] == "param" else None)
+        if pi is not None and call is not None and 1 <= pi <= len(call[1]["args"]):
+            a = op_local(call[1]["args"][pi - 1])
+            out += [("caller",) + tuple(x) for x in (backward_slice(call[0], [a])[1] if a is not None else [])]
+        out.append(lf)
+    return out
+
+
 def r14_2(ctx):
+    """the post-walk validation, written in the entry point itself or in a private helper of its module that the entry
+    point calls after the walk (the helper is read with its parameters bound to the caller's arguments)"""
     prog = ctx.prog()
     for ename, walk in ENTRIES:
         fn = prog.find(ename)
-        walks = [(b, t) for b, t in fn.calls() if callee_is(t, walk)]
-        need = [(b, t) for b, t in fn.calls() if callee_is(t, "need_utf8_valid")]
-        fu = [(b, t) for b, t in fn.calls() if callee_is(t, "from_utf8")]
-        idx = [(b, t) for b, t in fn.calls() if callee_is(t, "Reader::index")]
-        oks = [b for b, k, _ in return_kinds(fn) if k == "Ok"]
         key = short(fn.id)
-        if not (walks and need and fu and idx and oks):
-            ctx.ob("R14.2", f"{key}:shape", False, fn.loc(), f"missing part of the post-walk validation (walk {bool(walks)}, need_utf8_valid {bool(need)}, from_utf8 {bool(fu)}, index {bool(idx)})")
+        walks = [(b, t) for b, t in fn.calls() if callee_is(t, walk)]
+        oks = [b for b, k, _ in return_kinds(fn) if k == "Ok"]
+        # where from_utf8 is called: here, or in a helper called from here
+        V, hcall = fn, None
+        if not any(callee_is(t, "from_utf8") for b, t in fn.calls()):
+            for b, t in fn.calls():
+                g = prog.fns.get(t["callee"])
+                if g is not None and g.crate == "sonic_rs" and not callee_is(t, walk) and norm_mod(g.id) == norm_mod(fn.id) and any(callee_is(tt, "from_utf8") for bb, tt in g.calls()):
+                    V, hcall = g, (b, t)
+                    break
+        fu = [(b, t) for b, t in V.calls() if callee_is(t, "from_utf8")]
+        need_f = [(b, t) for b, t in fn.calls() if callee_is(t, "need_utf8_valid")]
+        need_v = [(b, t) for b, t in V.calls() if callee_is(t, "need_utf8_valid")] if V is not fn else []
+        idx_f = [(b, t) for b, t in fn.calls() if callee_is(t, "Reader::index")]
+        idx_v = [(b, t) for b, t in V.calls() if callee_is(t, "Reader::index")] if V is not fn else []
+        if not (walks and (need_f or need_v) and fu and (idx_f or idx_v) and oks):
+            ctx.ob("R14.2", f"{key}:shape", False, fn.loc(), f"missing part of the post-walk validation (walk {bool(walks)}, need_utf8_valid {bool(need_f or need_v)}, from_utf8 {bool(fu)}, index {bool(idx_f or idx_v)})")
             continue
-        e = bool_switch_edges(fn, need[0][1]["dest"][0])
-        ok_path = False
-        if e:
-            t_t, f_t = e
-            fb = {b for b, t in fu}
-            ok_path = not (fn.reachable_from(t_t, avoid=fb) & set(oks))
-        ctx.ob("R14.2", f"{key}:ok-passes-from_utf8", ok_path, fn.loc(fu[0][1]["ln"]),
+        fb = {b for b, t in fu}
+        if V is fn:
+            e = bool_switch_edges(fn, need_f[0][1]["dest"][0])
+            ok_path = bool(e) and not (fn.reachable_from(e[0], avoid=fb) & set(oks))
+        else:
+            hb, ht = hcall
+            # in the entry point: every Ok return passes the helper (on the need_utf8_valid() edge, if the test is made here)
+            e = bool_switch_edges(fn, need_f[0][1]["dest"][0]) if need_f else None
+            start = e[0] if e else 0
+            ok_here = not (fn.reachable_from(start, avoid={hb}) & set(oks))
+            # in the helper: on the edge where validation is needed, every success exit passes from_utf8
+            vstart = None
+            if need_v:
+                ev = bool_switch_edges(V, need_v[0][1]["dest"][0])
+                vstart = ev[0] if ev else None
+            elif e:
+                vstart = 0      # the helper is only called when validation is needed
+            else:
+                # the caller's need_utf8_valid() handed over as a bool parameter
+                for i, a in enumerate(ht["args"], start=1):
+                    la = op_local(a)
+                    if la is not None and i < len(V.locals) and V.locals[i]["ty"] == "bool" and any(lf[0] == "call" and callee_is(lf[2], "need_utf8_valid") for lf in backward_slice(fn, [la])[1]):
+                        ev = bool_switch_edges(V, i)
+                        vstart = ev[0] if ev else None
+            ok_path = ok_here and vstart is not None and not (V.reachable_from(vstart, avoid=fb) & (_success_exits(V) - fb))
+        ctx.ob("R14.2", f"{key}:ok-passes-from_utf8", ok_path, V.loc(fu[0][1]["ln"]),
                "on the need_utf8_valid() edge every Ok return passes from_utf8" if ok_path else "an Ok return on the need_utf8_valid() edge bypasses from_utf8")
-        prop = all(result_fate(fn, b, t) in ("propagated",) for b, t in fu)
-        err_ok = True
-        for b, t in fu:
-            tb = [(bb, tt) for bb, tt in fn.calls() if callee_is(tt, "branch") and op_local(tt["args"][0]) == t["dest"][0]]
-            re_ = result_edges(fn, tb[0][1]["dest"][0]) if tb else result_edges(fn, t["dest"][0])
-            if re_ is None or (fn.reachable_from(re_[1]) & set(oks)):
-                err_ok = False
-        ctx.ob("R14.2", f"{key}:error-propagated", prop and err_ok, fn.loc(fu[0][1]["ln"]), "the UTF-8 error is propagated and its edge cannot reach Ok")
+        # the error is propagated: out of the body that calls from_utf8, and (for a helper) out of the entry point
+        def propagated(g, sites, success):
+            okp = True
+            for b, t in sites:
+                if result_fate(g, b, t) != "propagated" and not _flows_to_return(g, t["dest"][0]):
+                    okp = False
+                if _flows_to_return(g, t["dest"][0]) and not any(callee_is(tt, "branch") and op_local(tt["args"][0]) == t["dest"][0] for bb, tt in g.calls()):
+                    continue    # returned as it is
+                tb = [(bb, tt) for bb, tt in g.calls() if callee_is(tt, "branch") and op_local(tt["args"][0]) == t["dest"][0]]
+                re_ = result_edges(g, tb[0][1]["dest"][0]) if tb else result_edges(g, t["dest"][0])
+                if re_ is None or (g.reachable_from(re_[1]) & success):
+                    okp = False
+            return okp
+        okp = propagated(V, fu, {b for b, k, _ in return_kinds(V) if k == "Ok"})
+        if V is not fn:
+            okp = okp and propagated(fn, [hcall], set(oks))
+        ctx.ob("R14.2", f"{key}:error-propagated", okp, V.loc(fu[0][1]["ln"]), "the UTF-8 error is propagated and its edge cannot reach Ok")
         # what is validated: the input prefix up to the reader index after the walk
         a = op_local(fu[0][1]["args"][0])
-        sl, leaves = backward_slice(fn, [a]) if a is not None else (set(), [])
-        has_idx = any(lf[0] == "call" and callee_is(lf[2], "Reader::index") for lf in leaves)
-        has_in = any(lf[0] == "call" and callee_is(lf[2], "to_u8_slice") for lf in leaves)
-        from_walk = any(lf[0] == "call" and callee_is(lf[2], walk) for lf in leaves)
-        after = all(fn.dominates(walks[0][0], b) for b, t in idx)
+        leaves = _leaves_through(V, a, (fn, hcall[1]) if hcall else None)
+        is_call = lambda lf, *names: (lf[0] == "call" and callee_is(lf[2], *names)) or (lf[0] == "caller" and lf[1] == "call" and callee_is(lf[3], *names))
+        has_idx = any(is_call(lf, "Reader::index") for lf in leaves)
+        has_in = any(is_call(lf, "to_u8_slice") for lf in leaves)
+        from_walk = any(is_call(lf, walk) for lf in leaves)
+        after = all(fn.dominates(walks[0][0], b) for b, t in idx_f) and (V is fn or fn.dominates(walks[0][0], hcall[0]))
         okv = has_idx and has_in and not from_walk and after
-        ctx.ob("R14.2", f"{key}:validates-prefix", okv, fn.loc(fu[0][1]["ln"]),
+        ctx.ob("R14.2", f"{key}:validates-prefix", okv, V.loc(fu[0][1]["ln"]),
                "from_utf8 runs over input[..index] with index read after the walk: everything traversed is validated" if okv else
                "from_utf8 does not cover the whole traversed prefix input[..index] (skipped members and keys before the target are not validated)")
+
+
+def norm_mod(fid):
+    from ..facts import norm_path
+    return norm_path(fid).rsplit("::", 1)[0]
 
 
 def r14_3(ctx):
